@@ -22,7 +22,7 @@ MANIFEST = {
 }
 
 THEOREMS = {
-    "C01": ["Spsc.C01_reachable_safe", "Spsc.C01_fifo", "Spsc.C01_grant_fits", "Spsc.C01_wrap", "Spsc.wrap_refines",
+    "C01": ["Spsc.C01_reachable_safe", "Spsc.C01_fifo", "Spsc.C01_trace_fifo", "Spsc.C01_grant_fits", "Spsc.C01_wrap", "Spsc.wrap_refines",
             "Spsc.step_inv", "Spsc.step_safe", "Spsc.weak_wLoad_unsafe", "Spsc.weak_rLoad_unsafe",
             "Obligations.bounded_orders_ok", "Obligations.extraction_complete", "Obligations.C01_extracted"],
     "C09": ["Spsc.C09_drained_grants", "Spsc.drained_grants_of_inv", "Spsc.C09_batch_only_stalls",
@@ -44,6 +44,10 @@ try:
         OBLIG_BY_PROP["C09"] = OBLIG_BY_PROP["C09"] + list((getattr(_bB, "OBLIG_BY_PROP", None) or {}).get("C09", getattr(_bB, "OBLIG", [])))
 except Exception:  # the queue-level theorems stand on their own
     pass
+
+# bundle M (tools/props/math_thm_M.py): MathUtilities.h + what the bounded constructor makes of a requested capacity, attached to C01
+import props.math_thm_M as _mM
+_mM.attach("C01", THEOREMS["C01"], MODULES["C01"], OBLIG_BY_PROP["C01"])
 
 # which ORACLE lines belong to which property
 C09_ORACLES = ("drained-queue-refuses",)
@@ -200,6 +204,9 @@ def run(prop, tier):
             if s not in ("-", w):
                 ps["broken"].append("extraction disagrees with run-time order for %s: extracted %s, observed %s" % (nm, w, s))
 
+    if prop == "C01":
+        _mM.stream(ck, prop, tier, ps)   # arithmetic / constructor stream of bundle M (own violations, coverage in ck.cov["math_stream"])
+
     # --- verdicts -----------------------------------------------------------------------------
     if oracle_hits:
         label, ln, tr, i = oracle_hits[0]
@@ -262,6 +269,8 @@ def run(prop, tier):
 
 
 def replay(prop, path):
+    if _mM.is_math_replay(path):
+        return _mM.replay(prop, path)
     if open(path).readline().startswith("# H2 "):
         import props.backend as be
         return be.replay(prop, path)
